@@ -381,6 +381,11 @@ func genC05(seed uint64, idx int) *Plan {
 		}
 		p.InnerSNI = string(b)
 	}
+	if idx%13 == 6 {
+		// a client that puts an address literal into server_name (not allowed,
+		// and seen): reported and passed on as sent
+		p.InnerSNI = []string{"192.0.2.7", "2001:db8::1", "10.1.2.3", "::ffff:192.0.2.1"}[(idx/13)%4]
+	}
 	p.HRRThenHello2 = r.IntN(4) == 0
 	switch r.IntN(7) {
 	case 0: // no ECH at all, TLS 1.3
@@ -411,6 +416,21 @@ func genC05(seed uint64, idx int) *Plan {
 				}
 			}
 			p.Mutations = []Mutation{{Kind: "wrong-id-ext", A: idx / 4}}
+		}
+		if idx%4 == 3 {
+			// ... or: a config id none of the server's keys has, and no
+			// encapsulated key at all (not for this server: passed on like GREASE)
+			p.Target.KeySeed = t.KeySeed
+			for clash := true; clash; {
+				clash = false
+				for _, k := range p.Keys {
+					if k.ID == p.Target.ID {
+						p.Target.ID++
+						clash = true
+					}
+				}
+			}
+			p.Mutations = []Mutation{{Kind: "ech-empty-enc"}}
 		}
 		if idx%4 == 0 {
 			// ... and an encapsulated key no X25519 key can use
@@ -468,6 +488,13 @@ func genC05(seed uint64, idx int) *Plan {
 	}
 	if (p.NoECH || p.Grease) && idx%11 == 5 {
 		p.SNIList = 1 + (idx/11)%3
+	}
+	if idx%17 == 8 {
+		// a framed transport: the hello trickles in two or three octets at a
+		// time, with a read that returns nothing before each piece (hundreds of
+		// empty reads in all, never two in a row)
+		p.EmptyReads = true
+		p.Chunks = []int{2 + (idx/17)%2}
 	}
 	if p.NoECH && p.NoVersions && idx%3 == 0 {
 		// an old client: no extensions (an empty block, or none at all)
